@@ -6,14 +6,46 @@ import (
 	"github.com/lni/dragonboat/v4/verifsim/simhost"
 )
 
+func p(kv ...string) map[string]string {
+	m := map[string]string{}
+	for i := 0; i+1 < len(kv); i += 2 {
+		m[kv[i]] = kv[i+1]
+	}
+	return m
+}
+
 func init() {
 	runner.RegisterScenario(&runner.Scenario{
 		Name: "simhost",
-		Real: []string{"NodeHost API", "engine step/commit/apply/snapshot/close worker bodies", "node", "request tables", "raft core", "rsm", "snapshotter", "tan log store", "transport receive side + chunk reassembly"},
-		Stub: []string{"worker select scaffolding (driven by the simulator)", "transport send queues/TCP (SimNet)", "disk (SimFS over lni/vfs StrictMem)", "gossip registry", "metrics"},
-		Rule: "one run = one seeded schedule+fault sequence over a swarm-drawn cluster config; non-trivial = at least 3 user entries applied and 2 client ops completed; distinct = distinct (abstract state set, applied count, history length) signature",
+		Real: []string{"NodeHost API", "engine step/commit/apply/snapshot/close worker bodies", "node", "request tables", "raft core", "rsm", "snapshotter", "tan log store", "transport receive side + chunk reassembly + snapshot job state machine"},
+		Stub: []string{"worker select scaffolding (branches chosen by the simulator)", "transport send queues/TCP (SimNet)", "disk (SimFS over lni/vfs StrictMem)", "gossip registry", "metrics"},
+		Rule: "one run = one seeded schedule+fault sequence over a swarm-drawn cluster config (1-5 hosts, 3 SM kinds, PreVote/CheckQuorum/Quiesce/NotifyCommit, snapshot and compaction settings, fault menu and rates); non-trivial = at least 3 user entries applied and 2 client ops completed; distinct = distinct signature (set of abstract cluster states visited, applied count, history length)",
 		Run:  simhost.Run,
 	})
-	runner.RegisterCheck(&runner.Check{Property: "C02", Level: "exploration", QuickBudgetS: 60, ThoroughS: 900,
-		Parts: []runner.Part{{Scenario: "simhost", Share: 1}}})
+	sh := func(prop string, quick, thorough int, parts ...runner.Part) {
+		runner.RegisterCheck(&runner.Check{Property: prop, Level: "exploration", QuickBudgetS: quick, ThoroughS: thorough, Parts: parts,
+			Assumptions: []string{
+				"worker loop select scaffolding and transport send queues are replaced by the simulator (every function they call is the shipped one)",
+				"scheduling granularity is the yield point (worker branch, file system operation, state machine method entry, message send), not the instruction",
+				"fsync is honoured by the simulated disk; unsynced data and directory entries are lost at a crash, optionally leaving a torn tail",
+			}})
+	}
+	sh("C01", 90, 1200, runner.Part{Scenario: "simhost", Params: p("pdup", "0"), Share: 3},
+		runner.Part{Scenario: "simhost", Params: p("pdup", "0", "readmix", "60", "ppartition", "8", "ptransfer", "8"), Share: 2})
+	sh("C02", 90, 1200, runner.Part{Scenario: "simhost", Share: 3},
+		runner.Part{Scenario: "simhost", Params: p("pmember", "10", "hosts", "4"), Share: 1})
+	sh("C03", 90, 1200, runner.Part{Scenario: "simhost", Params: p("ppartition", "10", "pcrash", "8", "ops", "8"), Share: 2},
+		runner.Part{Scenario: "simhost", Params: p("pmember", "10", "ptransfer", "10"), Share: 1})
+	sh("C04", 90, 1200, runner.Part{Scenario: "simhost", Params: p("pcrash", "12", "fsyield", "300", "torn", "1"), Share: 2},
+		runner.Part{Scenario: "simhost", Params: p("pcrash", "6", "fsyield", "50"), Share: 1})
+	sh("C07", 90, 1200, runner.Part{Scenario: "simhost", Params: p("pmember", "20", "hosts", "4"), Share: 2},
+		runner.Part{Scenario: "simhost", Params: p("pmember", "12", "hosts", "5", "pcrash", "6"), Share: 1})
+	sh("C11", 90, 1200, runner.Part{Scenario: "simhost", Params: p("smyield", "500", "pstop", "6", "psnapreq", "10"), Share: 2},
+		runner.Part{Scenario: "simhost", Params: p("smyield", "300", "pcrash", "6"), Share: 1})
+	sh("C12", 90, 1200, runner.Part{Scenario: "simhost", Params: p("pstop", "4", "timeout", "30"), Share: 1},
+		runner.Part{Scenario: "simhost", Share: 1})
+	sh("C17", 90, 1200, runner.Part{Scenario: "simhost", Share: 2},
+		runner.Part{Scenario: "simhost", Params: p("pmember", "10", "ptransfer", "8", "ppartition", "8"), Share: 1})
+	sh("C18", 90, 1200, runner.Part{Scenario: "simhost", Params: p("pmember", "20", "hosts", "5"), Share: 1},
+		runner.Part{Scenario: "simhost", Params: p("pmember", "20", "hosts", "4", "pcrash", "5"), Share: 1})
 }
